@@ -417,6 +417,39 @@ func (g *Gen) evalSel(ctx *specCtx, x *ESel) Val {
 		case "pay":
 			return IntV{b.Pay}
 		}
+		// an interface whose dynamic value is statically known (e.g. a result built as &T{...}): fields of that value
+		if pv, ok := b.Conc.(PtrV); ok && pv.Cell == nil {
+			if i, ft, ok := structFieldIndex(pv.Elem, x.F); ok {
+				np := pv
+				np.Steps = append(append([]pstep(nil), pv.Steps...), pstep{Field: i, Name: x.F})
+				np.Elem = ft
+				lv := g.loadHeap(ctx.st, np)
+				g.specFact(lv, ft)
+				return lv
+			}
+		}
+		if b.Conc == nil && g.rootFn != nil && g.rootFn.Pkg != nil {
+			// dynamic value unknown on this path (typically the nil interface of an error return): the field of the
+			// only struct type of the package that has it, unconstrained - the clause must guard its use itself
+			var ft types.Type
+			n := 0
+			sc := g.rootFn.Pkg.Pkg.Scope()
+			for _, name := range sc.Names() {
+				if tn, ok := sc.Lookup(name).(*types.TypeName); ok {
+					if _, t, ok := structFieldIndex(tn.Type(), x.F); ok {
+						if ft != nil && types.Identical(ft.Underlying(), t.Underlying()) {
+							continue // same representation: either will do for an unconstrained value
+						}
+						ft = t
+						n++
+					}
+				}
+			}
+			if n == 1 {
+				v, _ := g.freshVal(ft, "dynfield_"+x.F)
+				return v
+			}
+		}
 	case SliceV:
 		switch x.F {
 		case "ref":
